@@ -103,6 +103,8 @@ type Machine struct {
 	opaqueLocs   map[string]*Loc
 	pendingFns   []string
 	poolStore    map[*Loc][]Value
+	lra          *lraSolver
+	lraNotes     []string
 	asmNotes     []string
 	asmAccesses  int
 	asmSteps     int
